@@ -25,8 +25,16 @@ class C12(RunProp):
                 lambda: gen.gen_loop_bounded(rng), lambda: gen.gen_failing_dag(rng), lambda: gen.gen_map_node(rng)]
         while True:
             c = rng.choice(gens)()
+            top = c["program"][-1]["nodes"]
+            if any(n["kind"] in ("route", "ifelse") for n in top) and rng.random() < 0.5:
+                # strict selection of outputs some of which the taken branch does not produce (result assembly itself can fail)
+                outs = [o for n in top for o in n.get("dataOuts", [])]
+                if outs:
+                    c.setdefault("cfg", {})
+                    c["cfg"] = dict(c["cfg"], select=rng.sample(outs, rng.randint(1, len(outs))), onMissing="error")
             for runner in ("sync", "async"):
-                yield {"kind": "run", "program": c["program"], "values": c["values"], "cfg": c.get("cfg", {}), "runner": runner, "seed": rng.randint(0, 10**6)}
+                yield {"kind": "run", "program": c["program"], "values": c["values"], "cfg": c.get("cfg", {}), "runner": runner, "seed": rng.randint(0, 10**6),
+                       "yielding": runner == "async" and rng.random() < 0.5}
             if rng.random() < 0.25:
                 m = gen.gen_map_node(rng)
                 inner = [m["program"][0]]
@@ -40,15 +48,17 @@ class C12(RunProp):
                         mo.append(p[0])
                 for runner in ("sync", "async"):
                     yield {"kind": "map", "program": inner, "values": vals, "mapOver": mo, "mode": "zip", "mapErr": rng.choice(["raise", "continue"]),
-                           "cfg": {}, "runner": runner, "seed": rng.randint(0, 10**6)}
+                           "cfg": {}, "runner": runner, "seed": rng.randint(0, 10**6), "yielding": runner == "async" and rng.random() < 0.5}
 
     def impl(self, case: dict) -> Any:
         ctl = sched.Controller("random", case["seed"]) if case["runner"] == "async" else None
         if case["kind"] == "map":
-            o = impl.map_case(case["program"], case["values"], case["mapOver"], case["mode"], case["mapErr"], case["cfg"], case["runner"], ctl=ctl, record_events=True)
+            o = impl.map_case(case["program"], case["values"], case["mapOver"], case["mode"], case["mapErr"], case["cfg"], case["runner"], ctl=ctl, record_events=True,
+                              yielding_recorder=bool(case.get("yielding")))
             o["status"] = "build-error" if o.get("status") == "build-error" else ("failed" if o["raised"] is not None else "completed")
             return o
-        return impl.run_case(case["program"], None, case["values"], case["cfg"], case["runner"], record_events=True, ctl=ctl)
+        return impl.run_case(case["program"], None, case["values"], case["cfg"], case["runner"], record_events=True, ctl=ctl,
+                             yielding_recorder=bool(case.get("yielding")))
 
     def request(self, case: dict) -> dict:
         if case["kind"] == "map":
